@@ -373,6 +373,10 @@ def run(ctx):
     ctx.sample({"line": wf[0][2], "ast": g.canon_instr(wf[0][1])})
     ctx.sample({"line": wf[1][2], "ast": g.canon_instr(wf[1][1])})
 
+    # ---- translator tie (T) for the post-processing stage behind the grammar (notes/C09C10-post.md)
+    import parsepost_tie
+    parsepost_tie.run_x86(ctx, parser, [l for l, _ in CORPUS] + [t for _, _, t in wf])
+
     # ---- malformed stream
     mal = []
     for _ in range(n_mal):
